@@ -40,7 +40,7 @@ func planC09(tier string, seed int64) (*core.Plan, error) {
 		Assumptions: []string{"the legacy struct-backed Reflect node implements no Choose and is not a subject of C09"},
 	}
 	kinds := []string{"upsert", "upsert", "upsert", "insert", "update"}
-	for _, fname := range []string{"S0", "S1"} {
+	for _, fname := range []string{"S0", "S1", "S7"} {
 		f, err := fx.Load(fname)
 		if err != nil {
 			return nil, err
@@ -107,7 +107,7 @@ func planC18(tier string, seed int64) (*core.Plan, error) {
 			return canonJSON(r["pre"]) != canonJSON(r["post"])
 		},
 	}
-	for _, fname := range []string{"S0", "S1", "P0"} {
+	for _, fname := range []string{"S0", "S1", "P0", "S7"} {
 		f, err := fx.Load(fname)
 		if err != nil {
 			return nil, err
@@ -192,7 +192,7 @@ func storesFor(fname string) (stores, srcs []string) {
 	if fname == "P0" {
 		return fx.StoreNames, append(append([]string{}, allSrcs...), "rstruct")
 	}
-	if fname == "S2" || fname == "S3" || fname == "S4" || fname == "S5" {
+	if fname == "S2" || fname == "S3" || fname == "S4" || fname == "S5" || fname == "S7" {
 		// typed values: map-backed stores only (no struct types are declared for S2)
 		return []string{"rmap", "nmap", "rslice", "nslice"}, []string{"json", "rmap", "nmap", "nslice"}
 	}
@@ -268,7 +268,7 @@ func planC03(tier string, seed int64) (*core.Plan, error) {
 		Assumptions: []string{"stores are built and read back directly (Go maps/structs), not through the library", "fixtures compile to the committed abstract schemas spec/S0.json, spec/S1.json, spec/M0.json (checked on every run)", "errors classified with errors.Is only"},
 	}
 	kinds := []string{"upsert", "insert", "update"}
-	for _, fname := range []string{"S0", "S1", "P0", "S2"} {
+	for _, fname := range []string{"S0", "S1", "P0", "S2", "S7"} {
 		st, err := editStage(fname, r, n/4, kinds, h/4)
 		if err != nil {
 			return nil, err
